@@ -201,3 +201,93 @@ def lossy_transformers(e):
                 if k.arg == "dtype" and U(k.value) in NARROW_DTYPES:
                     out.append(f"dtype={U(k.value)}")
     return out
+
+
+# --------------------------------------------------------------------------- h5 writer / reader agreement
+def loader_wiring(ctx, f, ctor_names):
+    """{param: expr} restored by a load function: keyword/positional args of the
+    constructor call plus `obj.attr = value` stores on the constructed object;
+    local single definitions are inlined."""
+    env = single_defs(f.node)
+    call = None
+    for c in calls(f.node):
+        if isinstance(c.func, ast.Name) and c.func.id in ctor_names:
+            call = c
+    if call is None:
+        raise AnalysisError(f"{f.site()}: constructor call {ctor_names} not found in loader")
+    out = {}
+    for k in call.keywords:
+        if k.arg is None:
+            raise AnalysisError(f"{f.site()}: **kwargs in loader constructor call")
+        out[k.arg] = inline(k.value, env)
+    pos = [inline(a, env) for a in call.args]
+    obj = None
+    for n in walk_own(f.node):
+        if isinstance(n, ast.Assign) and n.value is call and isinstance(n.targets[0], ast.Name):
+            obj = n.targets[0].id
+    if obj:
+        for n in walk_own(f.node):
+            if isinstance(n, ast.Assign) and len(n.targets) == 1:
+                t = n.targets[0]
+                if isinstance(t, ast.Attribute) and isinstance(t.value, ast.Name) and t.value.id == obj:
+                    out[t.attr] = inline(n.value, env)
+                elif isinstance(t, ast.Subscript) and isinstance(t.value, ast.Attribute) and isinstance(t.value.value, ast.Name) \
+                        and t.value.value.id == obj:
+                    out[t.value.attr] = inline(n.value, env)   # instance.values[:n] = values
+    return out, pos, call
+
+
+def serde_agreement(ctx, rule, save_q, load_q, table, ctor_names, positional=None):
+    """table: {param or (param, i): writer expression text (after stripping encode/astype(str))}
+    Obligations per entry: restored by the loader; the key read is written; the written value is
+    the like-named state; codecs pair up; no lossy transformer on either side; whole-dataset read."""
+    sf, lf = ctx.fn(save_q), ctx.fn(load_q)
+    W = h5_writes(sf.node)
+    wiring, pos, call = loader_wiring(ctx, lf, ctor_names)
+    if positional:
+        for i, name in enumerate(positional):
+            if i < len(pos):
+                wiring.setdefault(name, pos[i])
+    senv = single_defs(sf.node)
+    for entry, want in table.items():
+        name = entry if isinstance(entry, str) else f"{entry[0]}[{entry[1]}]"
+        site = f"{lf.site()}<->{sf.site()}::{name}"
+        param = entry if isinstance(entry, str) else entry[0]
+        e = wiring.get(param)
+        if e is None or (isinstance(e, ast.Constant) and e.value is None):
+            ctx.bad(rule, site, f"loader does not restore `{param}` (the constructor would recompute or default it)")
+            continue
+        if isinstance(e, ast.Call) and h5_read_key(e) is None and (attr_tail(e) or "") in {fn.name for fn in ctx.R.funcs.values()}:
+            raise AnalysisError(f"{site}: restored through the helper call `{U(e)[:70]}`; the rule reads keys only from "
+                                f"direct h5 reads and cannot decide which datasets the helper consults")
+        if not isinstance(entry, str):
+            if not isinstance(e, ast.Tuple) or len(e.elts) <= entry[1]:
+                ctx.bad(rule, site, f"`{param}` is restored as `{U(e)[:80]}`, not as a tuple of stored components")
+                continue
+            e = e.elts[entry[1]]
+        rd = h5_read_key(e)
+        if rd is None:
+            ctx.bad(rule, site, f"`{name}` is restored from `{U(e)[:80]}`, not read back from the file")
+            continue
+        kind, key, rwrap, how = rd
+        if (kind, key) not in W:
+            ctx.bad(rule, site, f"loader reads {kind} `{key}` which the writer never writes (writes: {sorted(k for _, k in W)})")
+            continue
+        wexpr = inline(W[(kind, key)], senv)
+        inner, wwrap = write_wrapper(wexpr)
+        inner_s = strip_value_preserving(inner)
+        problems = []
+        if U(inner_s).replace(" ", "") != want.replace(" ", ""):
+            problems.append(f"key `{key}` stores `{U(inner_s)[:60]}` but is loaded into `{name}` (expected `{want}`)")
+        if (wwrap is None) != (rwrap is None):
+            problems.append(f"codec mismatch: written {wwrap}, read {rwrap}")
+        elif wwrap and rwrap and wwrap[1] != rwrap[1]:
+            problems.append(f"encoded as {wwrap[1]} but decoded as {rwrap[1]}")
+        if how != "whole" and not (isinstance(how, tuple) and how[0] == "elem" and entry in getattr(ctx, "_scalar_entries", ())):
+            problems.append(f"dataset `{key}` is read partially ({how})")
+        lw = lossy_transformers(wexpr)
+        lr = lossy_transformers(e)
+        if lw or lr:
+            problems.append(f"lossy transformation on the {'writer' if lw else 'reader'} side: {lw or lr}")
+        ctx.check(rule, site, not problems, f"`{name}` <- {kind} `{key}` <- `{want}`", "; ".join(problems))
+    return W, wiring
